@@ -103,6 +103,75 @@ def run_chain(rp, before, after, pmgr_cbs, final_state='FAILED'):
     return called, task.state
 
 
+def run_added(rp, groups, order):
+    """pilots handed to the REAL TaskManager.add_pilots in groups (one call per group, a list where the group has
+    several), one running task bound to each; then the pilots end, in `order`, through the real Pilot._update.
+    Returns after each ending the state of every task"""
+    import threading as mt
+    tm = stubs.make_tmgr(rp)
+    tm.publish = lambda *a, **k: None
+    pm = object.__new__(rp.PilotManager)
+    pm._uid, pm._log = 'pmgr.verif', rpload.NullLog()
+    pm._pcb_lock = mt.RLock()
+    pm._callbacks = {m: dict() for m in rp.constants.PMGR_METRICS}
+    class _Sub(object):
+        def stop(self): pass
+    pilots = {}
+    def mkp(i):
+        pilot = object.__new__(rp.Pilot)
+        pilot._uid, pilot._state, pilot._log, pilot._pmgr = 'pilot.%04d' % i, 'PMGR_ACTIVE', rpload.NullLog(), pm
+        pilot._cb_lock = mt.RLock()
+        pilot._callbacks = {m: dict() for m in rp.constants.PMGR_METRICS}
+        pilot._pilot_dict = {'uid': pilot._uid, 'state': 'PMGR_ACTIVE'}
+        pilot._sub = _Sub()
+        pilot._tmgr = None
+        pilot.attach_tmgr = lambda t, pilot=pilot: setattr(pilot, '_tmgr', t)
+        pilot.as_dict = lambda pilot=pilot: dict(pilot._pilot_dict)
+        pilots[i] = pilot
+        return pilot
+    for g in groups:
+        ps = [mkp(i) for i in g]
+        tm.add_pilots(ps if len(ps) > 1 else ps[0])
+    tasks = {i: stubs.make_task(rp, tm, 'task.%06d' % i, 'AGENT_EXECUTING', pilot='pilot.%04d' % i) for i in pilots}
+    snaps = []
+    for i, st in order:
+        try:
+            pilots[i]._update({'uid': pilots[i]._uid, 'state': st})
+        except RuntimeError:
+            pass
+        snaps.append({j: (t.state, t.exception_detail) for j, t in tasks.items()})
+    return snaps
+
+
+def added_part(ctx, rp):
+    rng = ctx.rng
+    n = 0
+    for _ in range(ctx.n(60, 1500)):
+        k = rng.randint(1, 4)
+        ids = list(range(k)); rng.shuffle(ids)
+        groups, i = [], 0
+        while i < k:
+            m = rng.choice([1, 1, 2, 3]); groups.append(ids[i:i + m]); i += m
+        order = [(i, rng.choice(['DONE', 'FAILED', 'CANCELED'])) for i in rng.sample(range(k), rng.randint(1, k))]
+        snaps = run_added(rp, groups, order)
+        n += 1
+        ctx.case({'added': groups, 'order': order}, nontrivial=any(len(g) > 1 for g in groups))
+        dead = set()
+        for (i, st), snap in zip(order, snaps):
+            dead.add(i)
+            for j, (ts, det) in snap.items():
+                if j in dead and (ts != 'FAILED' or 'pilot.%04d' % j not in str(det)):
+                    ctx.fail('added-pilots:dead-pilot-keeps-its-tasks',
+                             'pilots were added as %s; pilot %d ended %s, its task is %s (%s)' % (groups, j, st, ts, det),
+                             {'added': {'groups': groups, 'order': order}})
+                    break
+                if j not in dead and ts != 'AGENT_EXECUTING':
+                    ctx.fail('added-pilots:bystander-changed', 'task of live pilot %d became %s' % (j, ts),
+                             {'added': {'groups': groups, 'order': order}})
+                    break
+    ctx.obligation('pilots added one by one and in lists (%d cases): the tasks of a pilot that ends are failed, whichever call added it' % n, 'tie', True, '')
+
+
 def chain_part(ctx, rp):
     rng = ctx.rng
     ops, impl = [], []
@@ -163,6 +232,7 @@ CORPUS = [
 def run(ctx):
     rp   = rpload.load()
     chain_part(ctx, rp)
+    added_part(ctx, rp)
     tsts = [s for s in rp.states._task_state_values if s is not None]
     psts = [s for s in rp.states._pilot_state_values if s is not None]
     cases = list(CORPUS)
@@ -231,6 +301,18 @@ def run(ctx):
 def replay(ctx, data):
     rp = rpload.load()
     inp = data['input']
+    if 'added' in inp:
+        a = inp['added']
+        order = [tuple(x) for x in a['order']]
+        snaps = run_added(rp, a['groups'], order)
+        ok, dead = True, set()
+        for (i, st), snap in zip(order, snaps):
+            dead.add(i)
+            print('after pilot', i, st, ':', snap)
+            for j, (ts, det) in snap.items():
+                if j in dead and (ts != 'FAILED' or 'pilot.%04d' % j not in str(det)): ok = False
+                if j not in dead and ts != 'AGENT_EXECUTING': ok = False
+        return ok
     if 'chain' in inp:
         c = inp['chain']
         called, tstate = run_chain(rp, [tuple(x) for x in c['before']], [tuple(x) for x in c['after']], [tuple(x) for x in c['pmgr']])
